@@ -129,6 +129,8 @@ def run_case(case, trajs=None):
         R2, p2 = _tags(2, case["slots2"])
         tr1 = common.make_traj(R1, p1, t1, mode)
         tr2 = common.make_traj(R2, p2, t2, mode)
+        if case.get("same"):
+            tr2 = tr1
     else:
         tr1, tr2 = trajs
     snap1, snap2 = common.snapshot(tr1), common.snapshot(tr2)
@@ -162,6 +164,8 @@ def run_case(case, trajs=None):
             msgs.append("no SyncException although nothing can match")
         if o1 is tr1 or o2 is tr2:
             msgs.append("output object is the input object (not a copy)")
+        if o1 is o2:
+            msgs.append("both outputs are one and the same object")
         v1, v2 = common.views(o1), common.views(o2)
         if not (v1["n"] == v2["n"] == len(v1["stamps"]) == len(v2["stamps"])
                 == len(v1["xyz"]) == len(v2["xyz"]) == len(v1["quat"]) == len(
@@ -265,6 +269,18 @@ def shard_run(arg):
                                     "max_diff": max_diff, "mode": mode
                                 }
                                 msgs, info = run_case(case, (tr1, tr2))
+                                if m2 == m1 and jit == 0 and not msgs:
+                                    # the very same object as both arguments
+                                    m_same, _ = run_case(
+                                        dict(case, same=True), (tr1, tr1))
+                                    acc.count("same_object_cases")
+                                    acc.count("transitions", 2)
+                                    if m_same:
+                                        acc.violation(
+                                            "assoc", "same object passed "
+                                            "twice: " + "; ".join(m_same[:3]),
+                                            dict(case, same=True),
+                                            {"kind": "same-object"})
                                 acc.count("evaluations")
                                 acc.count("transitions", 2)
                                 acc.outcome(info.get("outcome", "?"))
